@@ -260,6 +260,9 @@ class FitYamlReader(YamlReaderMixin, FitDReprBase):
                 _fit_object.limit_parameter(_par, _low, _high)
 
         _fit_results = yaml_doc.pop("fit_results", None)
+        if _fit_type == "custom" and _fit_results and _fit_results.get("parameter_values") is not None:
+            # a custom fit has no parametric model that carries the parameter values
+            _fit_object.set_all_parameter_values(_fit_results["parameter_values"])
         _fit_object._loaded_result_dict = to_numpy_arrays(_fit_results)
         return _fit_object, yaml_doc
 
